@@ -1,6 +1,7 @@
 CONSTANTS
   MaxT = 2
   VerifyCallbacks = {"csvdump"}
+  KSet = {1, 2, 4, 6, 7}
   Cap = 2
   AsIs = {}
   Scenarios <- MCScen
